@@ -148,11 +148,13 @@ Definition trow_skipped (r : trow) : trow := mkT (t_wf r) SKIPPED true true (t_e
 Definition skip_task (d : db) (t : nat) : db := mkDb (wfs d) (upd t trow_skipped (tasks d)).
 
 (* task_handler.create_task for a RunExistingTask command with rerun=True (dispatcher, inside the rerun
-   transaction): a WAITING task gets its state_info; a failed or cancelled one is put to RUNNING at once
-   (until its start request is processed it must not look completed to a workflow completion check) *)
+   transaction): a WAITING task gets its state_info; a task in ERROR is put to RUNNING at once (until its
+   start request is processed it must not look completed to a workflow completion check).  Any other task
+   (an engine-level rerun of a CANCELLED task; the REST API accepts ERROR tasks only) keeps its state until
+   the start request is processed. *)
 Definition trow_restart (r : trow) : trow :=
   if state_eqb (t_state r) WAITING then mkT (t_wf r) WAITING true (t_processed r) (t_execs r)
-  else if state_eqb (t_state r) ERROR || state_eqb (t_state r) CANCELLED
+  else if state_eqb (t_state r) ERROR
        then mkT (t_wf r) RUNNING false false (t_execs r)
        else r.
 Definition restart_task (d : db) (t : nat) : db := mkDb (wfs d) (upd t trow_restart (tasks d)).
